@@ -292,7 +292,9 @@ func (c *pdClient) BatchScanRegions(ctx context.Context, keyRanges []router.KeyR
 	var lastRegion *router.Region
 	for _, keyRange := range keyRanges {
 		if lastRegion != nil && lastRegion.Meta != nil {
-			if lastRegion.Meta.EndKey == nil || bytes.Compare(lastRegion.Meta.EndKey, keyRange.EndKey) >= 0 {
+			// an empty end key means unbounded, for the region as well as for the range
+			if len(lastRegion.Meta.EndKey) == 0 ||
+				(len(keyRange.EndKey) > 0 && bytes.Compare(lastRegion.Meta.EndKey, keyRange.EndKey) >= 0) {
 				continue
 			}
 			if bytes.Compare(lastRegion.Meta.EndKey, keyRange.StartKey) > 0 {
@@ -304,7 +306,7 @@ func (c *pdClient) BatchScanRegions(ctx context.Context, keyRanges []router.KeyR
 			lastRegion = rangeRegions[len(rangeRegions)-1]
 		}
 		regions = append(regions, rangeRegions...)
-		limit -= len(regions)
+		limit -= len(rangeRegions)
 		if limit <= 0 {
 			break
 		}
